@@ -10,7 +10,13 @@
 (* generator branches, so the implementation's path is among the lines.     *)
 EXTENDS Update, TLC, Json
 
-CONSTANTS MsgsAt,     \* MsgsAt[k]: the messages that may come k-th (k in 1..MaxMsgs)
+CONSTANTS Signeds,    \* zone dimension: is the zone DNSSEC-signed (the server then maintains RRSIG / NSEC /
+                      \* DNSKEY records and re-signs after every accepted update)?  The requirement does
+                      \* not depend on it: RFC 2136 3.4.2 and the C12 invariants speak about the RRsets
+                      \* other than the DNSSEC types the server itself maintains ("CNAME and other
+                      \* data" explicitly excepts them, RFC 4035 2.5), and a signed zone has to end in
+                      \* exactly the same projected contents / RCODE / serial advance as an unsigned one.
+          MsgsAt,     \* MsgsAt[k]: the messages that may come k-th (k in 1..MaxMsgs)
           SimPre, SimUpd \* RR pools of the random-walk generator (only with -simulate; {} otherwise)
 VARIABLES log, init,
           clean   \* every SOA the message in flight installed so far was strictly greater (RFC 1982)
@@ -18,7 +24,8 @@ VARIABLES log, init,
 
 gvars == <<vars, log, init, clean>>
 
-GInit == Init /\ log = <<>> /\ init = [rrs |-> rrs, ser |-> ser] /\ clean = TRUE
+GInit == Init /\ log = <<>> /\ clean = TRUE
+         /\ \E b \in Signeds : init = [rrs |-> rrs, ser |-> ser, signed |-> b]
 
 GBegin ==
     /\ pc = "idle" /\ n < MaxMsgs
@@ -91,7 +98,7 @@ GSpec == GInit /\ [][GNext]_gvars
 
 Complete == pc = "idle" /\ n = MaxMsgs
 
-Case == [apex |-> Apex, zone |-> init.rrs, ser |-> init.ser,
+Case == [apex |-> Apex, zone |-> init.rrs, ser |-> init.ser, signed |-> init.signed,
          msgs |-> [k \in 1..Len(log) |-> log[k].m],
          exp  |-> [k \in 1..Len(log) |-> [chosen |-> log[k].chosen, alts |-> log[k].alts]]]
 
